@@ -214,17 +214,16 @@ impl<M: Hash + Clone + Eq, A: Ord + Hash> ResetRemove<A> for Orswot<M, A> {
             })
             .collect();
 
-        self.deferred = mem::take(&mut self.deferred)
-            .into_iter()
-            .filter_map(|(mut vclock, deferred)| {
-                vclock.reset_remove(clock);
-                if vclock.is_empty() {
-                    None
-                } else {
-                    Some((vclock, deferred))
-                }
-            })
-            .collect();
+        // Two deferred removes may end up with the same clock once `clock` has been
+        // subtracted from them; their member sets must be united, not overwritten.
+        let mut deferred: HashMap<VClock<A>, HashSet<M>> = HashMap::new();
+        for (mut vclock, members) in mem::take(&mut self.deferred) {
+            vclock.reset_remove(clock);
+            if !vclock.is_empty() {
+                deferred.entry(vclock).or_default().extend(members);
+            }
+        }
+        self.deferred = deferred;
     }
 }
 
